@@ -65,6 +65,7 @@ def read_namespace_tree(
     with_paths: bool = False,
     timeout: float = 20.0,
     raw: bool = False,
+    nodump: bool = False,
     **kwargs,
 ) -> Obs:
     """Materialise `files` (relative path -> text) in a fresh scratch directory and call pydsdl.read_namespace."""
@@ -83,7 +84,7 @@ def read_namespace_tree(
                 res = pydsdl.read_namespace(
                     base / root, [base / x for x in (lookups or [])], print_output_handler=handler, **kwargs
                 )
-            o.types = [dump.composite(t, with_paths=False) for t in res]
+            o.types = [{"full_name": t.full_name} for t in res] if nodump else [dump.composite(t, with_paths=False) for t in res]
             if with_paths:
                 for d, t in zip(o.types, res):
                     d["source_file_path"] = rel(base, t.source_file_path)
